@@ -30,7 +30,7 @@ func init() {
 		ID:    "C27",
 		Level: "exploration",
 		Rule: "cases: (filter) every handler specification of a 27-element set (no filter, '*', every event type, type lists, user:NAME, query:NAME, 'user:', 'bogus') x 2 script texts x 23 events (5 member types, 9 user-event names, 9 query names) through the real ParseEventScript/EventFilter.Invoke; non-trivial = specification with a filter. " +
-			"(handle) groups of 3 configured handlers x 9 events through the real ScriptEventHandler.HandleEvent executing /bin/sh marker scripts, plus a script reload; non-trivial = at least one handler must run and one must not. " +
+			"(handle) groups of 3 configured handlers x 9 events through the real ScriptEventHandler.HandleEvent executing /bin/sh marker scripts, plus a script reload, plus every history (length 3, thorough 4) of reloads among three handler sets (also back to the one in use) and events; non-trivial = at least one handler must run and one must not. " +
 			"(invoke) real invokeEventScript executing /bin/sh scripts that dump /proc/$$/environ and stdin: node names x tag sets x events (quick: two of the five events per pair); all member lists up to length 2 (thorough 3; quick: a cycle of pairs) over a pool of members with tabs/newlines/'='/','/non-ASCII in names, roles and tags, IPv4/IPv6/nil addresses, for all five member event types; user-event names x payloads (nil, empty, with/without trailing newline, embedded newlines, NUL/0xff bytes, 9 KiB) x Lamport times {0,1,42,2^64-1} (quick: 42, the others with the name x tag-set cases); non-trivial = case with a character that needs sanitising/escaping, a non-empty payload or more than one member. " +
 			"(query) real *serf.Query delivered to a real Serf node (inert memberlist) answered by a script whose output is one of {0,1,2, largest size fitting the response limit -1/+0/+1, 1024, 8191, 8192, 8193, 12000, 20000} bytes on stdout/stderr/both with exit status {0,1,3} for response limits {1024, 20000, 8200}; the response packet is read off the transport; non-trivial = output non-empty",
 		Assumptions: []string{
@@ -620,6 +620,47 @@ func c27handle(ctx *vc.Ctx, box *c27box, idx *int) {
 		}
 	}
 	scn.Sample("handlers ['user:deploy' 'query:load' 'member-join,member-leave'] + user event 'deploy' -> only marker A written")
+
+	// reload histories: every sequence of reloads (to any of three handler sets, also back to the
+	// one in use) and events; at each event exactly the handlers of the latest configuration run
+	hscn := ctx.Scn("handle/reload-histories", "cases")
+	depth := 3
+	if ctx.Thorough() {
+		depth = 4
+	}
+	ev := serf.Event(serf.UserEvent{Name: "deploy", LTime: 1})
+	letters := []int{0, 1, 3, -1} // reload to groups[0|1|3], or -1 = an event
+	var rec func(hist []int)
+	rec = func(hist []int) {
+		if len(hist) > 0 && hist[len(hist)-1] == -1 {
+			*idx++
+			if ctx.Mine(*idx) {
+				cur := groups[1]
+				h := &agent.ScriptEventHandler{SelfFunc: func() serf.Member { return self }, Scripts: build(cur), Logger: c27logger}
+				label := "start=1"
+				saved := scn
+				scn = hscn
+				for _, l := range hist {
+					if l >= 0 {
+						cur = groups[l]
+						h.UpdateScripts(build(cur))
+						label += fmt.Sprintf(" reload(%d)", l)
+						continue
+					}
+					label += " event"
+					eval(cur, h, ev, "history ["+label+"]:")
+				}
+				scn = saved
+			}
+		}
+		if len(hist) == depth {
+			return
+		}
+		for _, l := range letters {
+			rec(append(append([]int{}, hist...), l))
+		}
+	}
+	rec(nil)
 }
 
 // ---------------------------------------------------------------------------
